@@ -92,6 +92,11 @@ claim("C14", SIM + "; oracles: twin world without fragmentation (same seed, same
       "trusted: refotr fragment parser/reassembler (spec rule); harness; piece counts are capped at 4000 in quick and 65000 in thorough",
       "DESIGN.md section 5 C14")
 
+claim("C15", SIM + "; oracle: binding/isolation rules evaluated on every delivery from the tags the harness put on the wire; public helper compared with an independent header reader",
+      "Alice, two instances of Bob (same key, different tags) and an attacker who re-tags genuine messages and fragments with 12 tag combinations in every state and order; adversarial randomness for the own-tag generator. Own tag >= 0x100; the peer tag only ever changes from unknown to the sender tag of a message with valid tags addressed to this conversation; once bound, foreign or malformed-tag traffic yields no plaintext, reply, security/SMP/key event or session change; a genuine instance still completes the handshake; ExtractInstanceTags agrees with the header of every emitted message and fragment.",
+      "trusted: harness; a well-formed message from an unknown valid instance binds an unbound conversation by design and is not counted as an attack",
+      "DESIGN.md section 5 C15")
+
 _todo = "check not built yet in this session (see DESIGN.md section 12 build order)"
 for pid in [ "C11", "C12", "C13", "C14", "C15", "C16", "C18", "C19", "C20"]:
     NA[pid] = _todo
